@@ -1228,10 +1228,11 @@ pub fn bfs_with(
             stats.depth_completed = max_depth;
             break;
         }
-        // the frontier is expanded in chunks so that the state and memory caps can stop a level part-way
+        // the frontier is expanded in chunks so that the state and memory caps can stop a level part-way (small chunks: all
+        // successors of a chunk are alive at once, and a node of a pool scenario has a hundred of them)
         let mut next = vec![];
         let mut capped_mid_level = false;
-        for chunk in frontier.chunks(20_000) {
+        for chunk in frontier.chunks(2_000) {
             let results: Vec<(u64, Vec<(Node, [u8; 32])>)> = chunk
                 .par_iter()
                 .map(|n| {
